@@ -406,9 +406,14 @@ class H2(Case):
             if self.transforms:
                 tin, tout = _unitary_transforms(inp, self.transforms)
             infl = lib.Influences(inp, d, K)
-            mem = ptm.SimpleProcessTensor(hilbert_space_dimension=d, dt=0.1, transform_in=tin, transform_out=tout,
-                                          name="pt", description="descr")
-            lib.run_pt_tempo(inp, infl, N, K, d, process_tensor=mem)
+
+            def simple():
+                return ptm.SimpleProcessTensor(hilbert_space_dimension=d, dt=0.1, transform_in=tin, transform_out=tout,
+                                               name="pt", description="descr")
+            # run 1: in memory
+            mem = simple()
+            pt_tempo(infl, N, K, d, mem)
+            # run 2: the same computation writing directly into a file
             fn = ws.path("pt.hdf5") if self.named_file else None
             fpt = ptm.FileProcessTensor(mode="write", filename=fn, hilbert_space_dimension=d, dt=0.1, transform_in=tin,
                                         transform_out=tout, name="pt", description="descr")
@@ -416,9 +421,14 @@ class H2(Case):
             closed = False
             imp = None
             try:
-                lib.run_pt_tempo(inp, infl, N, K, d, process_tensor=fpt)
-                # the dynamics do not depend on the SVD gauge: a solver model for them replays on
-                # the real stack; they come first, the tensor-level obligations follow
+                pb2 = pt_tempo(infl, N, K, d, fpt)
+                # the tensor network of run 2 written into an in-memory process tensor as well: the
+                # reference for tensor-level comparisons on the real stack (two separate real runs
+                # may differ by an SVD gauge in degenerate subspaces; their dynamics may not)
+                mem2 = simple()
+                pb2._process_tensor = mem2
+                pb2.update_process_tensor()
+                pb2._process_tensor = fpt
                 obs = []
                 P1 = [lib.gen_prop(inp, "p%d" % k, d) for k in range(N)]
                 P2 = [lib.gen_prop(inp, "q%d" % k, d) for k in range(N)]
@@ -429,8 +439,10 @@ class H2(Case):
                     b = dynamics(fpt, d, P1, P2, rho0, 0.1)
                     obs.append(Ob.holds("number of states", len(a) == len(b) == N + 1))
                     for n in range(N + 1):
-                        obs.append(Ob.eq("dynamics file-backed == in-memory, step %d" % n, b[n], a[n]))
-                obs += compare("file-backed", mem, fpt, N)
+                        obs.append(Ob.eq("dynamics file-backed == in-memory run, step %d" % n, b[n], a[n]))
+                obs += compare("file-backed", mem2, fpt, N)
+                if inp.mode != "real":
+                    obs += compare("file-backed vs separate in-memory run", mem, fpt, N)
                 fpt.close()
                 closed = True
                 for kind in self.reimport:
@@ -439,8 +451,10 @@ class H2(Case):
                     if len(imp) == N:
                         c = dynamics(imp, d, P1, P2, rho0, 0.1)
                         for n in range(N + 1):
-                            obs.append(Ob.eq("dynamics re-import %s == in-memory, step %d" % (kind, n), c[n], a[n]))
-                    obs += compare("re-import " + kind, mem, imp, N)
+                            obs.append(Ob.eq("dynamics re-import %s == in-memory run, step %d" % (kind, n), c[n], a[n]))
+                    obs += compare("re-import " + kind, mem2, imp, N)
+                    if inp.mode != "real":
+                        obs += compare("re-import %s vs separate in-memory run" % kind, mem, imp, N)
                     if isinstance(imp, ptm.FileProcessTensor):
                         imp.close()
                     imp = None
@@ -453,6 +467,18 @@ class H2(Case):
                     import os
                     (os.remove if ws.real else h5stub.OS.remove)(fn)
         return concretise_frac(inp, obs)
+
+
+def pt_tempo(infl, N, K, d, pt):
+    """real PtTempoBackend.initialize / compute_step / update_process_tensor -> the backend"""
+    from oqupy.backends.pt_tempo_backend import PtTempoBackend
+    D = d * d
+    pb = PtTempoBackend(d, infl, pt, np.ones(D), np.ones(D), N, (K if K is not None else N), lib.EPS_REAL, {})
+    pb.initialize()
+    while pb.compute_step():
+        pass
+    pb.update_process_tensor()
+    return pb
 
 
 def cases(tier):
